@@ -175,8 +175,10 @@ def run_shard(task):
         phases = [Phase.explicit, Phase.generate]
         if sub.shrink:
             phases.append(Phase.shrink)
-        suppress = [HealthCheck.too_slow] if sub.suppress_too_slow else []
-        # large_base_example / data_too_large stay on: generator problems
+        # too_slow is a wall-clock signal (fires under machine load): never a
+        # correctness signal here.  filter_too_much / data_too_large /
+        # large_base_example stay on: they indicate a generator to fix.
+        suppress = [HealthCheck.too_slow]
         for rnd in range(MAX_ROUNDS):
             st = settings(
                 max_examples=task["n"], database=None, deadline=None,
@@ -336,7 +338,7 @@ def plan_tasks(mod, prop, tier, seed, only=None, scale=1.0):
 
 
 def write_replay(prop, sub, v):
-    d = os.path.join(VERIF_DIR, "replays", "found")
+    d = os.environ.get("VERIF_FOUND_DIR") or os.path.join(VERIF_DIR, "replays", "found")
     os.makedirs(d, exist_ok=True)
     name = f"{prop}_{sub}_{core.fingerprint([v['key'], v['case']])}.json"
     path = os.path.join(d, name)
@@ -344,7 +346,7 @@ def write_replay(prop, sub, v):
         json.dump({"property": prop, "subcheck": sub, "key": v["key"],
                    "detail": v["detail"], "case": v["case"]}, f, indent=1,
                   default=core._json_default)
-    return os.path.relpath(path, VERIF_DIR)
+    return os.path.relpath(path, VERIF_DIR) if path.startswith(VERIF_DIR + os.sep) else path
 
 
 def main(argv=None):
